@@ -890,11 +890,35 @@ Qed.
 (* 5. every reachable state of a store enumerates exactly what is stored     *)
 (* ======================================================================== *)
 
-Definition kentry_eq_dec : forall a b : kentry, {a = b} + {a <> b}.
-Proof. decide equality; apply Bool.bool_dec. Defined.
-Definition fstate_eq_dec : forall a b : fstate, {a = b} + {a <> b}.
-Proof. decide equality; try apply Bool.bool_dec. decide equality. apply kentry_eq_dec. Defined.
-Definition feqb (a b : fstate) : bool := if fstate_eq_dec a b then true else false.
+Definition kentry_eqb (a b : kentry) : bool :=
+  Bool.eqb (ke_deleted a) (ke_deleted b) && Bool.eqb (ke_dirty a) (ke_dirty b) &&
+  Bool.eqb (ke_vec a) (ke_vec b) && Bool.eqb (ke_code a) (ke_code b).
+Definition feqb (a b : fstate) : bool :=
+  match f_entry a, f_entry b with
+  | Some x, Some y => kentry_eqb x y
+  | None, None => true
+  | _, _ => false
+  end && Bool.eqb (f_q a) (f_q b) && Bool.eqb (f_v a) (f_v b) &&
+  Bool.eqb (f_trained a) (f_trained b) && Bool.eqb (f_live a) (f_live b).
+
+Lemma kentry_eqb_eq a b : kentry_eqb a b = true -> a = b.
+Proof.
+  unfold kentry_eqb. rewrite !andb_true_iff. intros [[[H1 H2] H3] H4].
+  apply Bool.eqb_prop in H1, H2, H3, H4. destruct a, b. cbn in *. congruence.
+Qed.
+Lemma feqb_eq a b : feqb a b = true -> a = b.
+Proof.
+  unfold feqb. rewrite !andb_true_iff. intros [[[[H0 H1] H2] H3] H4].
+  apply Bool.eqb_prop in H1, H2, H3, H4. destruct a as [ea ? ? ? ?], b as [eb ? ? ? ?]. cbn in *.
+  destruct ea as [x|], eb as [y|]; try discriminate.
+  - apply kentry_eqb_eq in H0. congruence.
+  - congruence.
+Qed.
+Lemma feqb_refl a : feqb a a = true.
+Proof.
+  unfold feqb, kentry_eqb. rewrite !Bool.eqb_reflx. destruct (f_entry a) as [x|]; [|reflexivity].
+  now rewrite !Bool.eqb_reflx.
+Qed.
 Definition fmem (s : fstate) (l : list fstate) : bool := existsb (feqb s) l.
 Fixpoint fdedup (l : list fstate) : list fstate :=
   match l with [] => [] | x :: r => if fmem x r then fdedup r else x :: fdedup r end.
@@ -912,16 +936,17 @@ Definition reach (c : kcfg) : list fstate :=
   bfs 64 c [fstate0 true; fstate0 false] [fstate0 true; fstate0 false].
 
 (* checked by computation, per configuration *)
-Definition cfg_ok (c : kcfg) : bool :=
-  fmem (fstate0 true) (reach c) && fmem (fstate0 false) (reach c) &&
-  forallb (fun s => forallb (fun o => fmem (fstep c s o) (reach c)) all_pops) (reach c) &&
-  forallb (fun s => Bool.eqb (fenum c s) (f_live s)) (reach c).
+Definition cfg_ok_on (c : kcfg) (R : list fstate) : bool :=
+  fmem (fstate0 true) R && fmem (fstate0 false) R &&
+  forallb (fun s => forallb (fun o => fmem (fstep c s o) R) all_pops) R &&
+  forallb (fun s => Bool.eqb (fenum c s) (f_live s)) R.
+Definition cfg_ok (c : kcfg) : bool := cfg_ok_on c (reach c).
 
 Lemma fmem_In s l : fmem s l = true <-> In s l.
 Proof.
   unfold fmem. rewrite existsb_exists. split.
-  - intros (y & Hy & E). unfold feqb in E. destruct (fstate_eq_dec s y); [now subst|discriminate].
-  - intros H. exists s. split; [assumption|]. unfold feqb. destruct (fstate_eq_dec s s); congruence.
+  - intros (y & Hy & E). apply feqb_eq in E. now subst.
+  - intros H. exists s. split; [assumption|apply feqb_refl].
 Qed.
 
 Lemma all_pops_all o : In o all_pops.
@@ -929,7 +954,7 @@ Proof. destruct o; cbn; tauto. Qed.
 
 Lemma reach_closed c pops : cfg_ok c = true -> forall s, In s (reach c) -> In (fold_left (fstep c) pops s) (reach c).
 Proof.
-  intros Hok. unfold cfg_ok in Hok. rewrite !andb_true_iff in Hok. destruct Hok as [[[_ _] Hcl] _].
+  intros Hok. unfold cfg_ok, cfg_ok_on in Hok. rewrite !andb_true_iff in Hok. destruct Hok as [[[_ _] Hcl] _].
   rewrite forallb_forall in Hcl.
   induction pops as [|o r IH]; intros s Hs; cbn; [assumption|]. apply IH.
   specialize (Hcl s Hs). rewrite forallb_forall in Hcl. apply fmem_In. apply Hcl. apply all_pops_all.
@@ -947,9 +972,9 @@ Theorem c04_enum_reachable_generic c :
 Proof.
   intros Hok trained0 ops id. unfold enumerated, stored. rewrite krun_proj.
   assert (Hin : In (fold_left (fstep c) (map (fun o => proj o id) ops) (kstate0 trained0 id)) (reach c)).
-  { apply reach_closed; [assumption|]. unfold kstate0. unfold cfg_ok in Hok. rewrite !andb_true_iff in Hok.
+  { apply reach_closed; [assumption|]. unfold kstate0. unfold cfg_ok, cfg_ok_on in Hok. rewrite !andb_true_iff in Hok.
     destruct Hok as [[[H1 H2] _] _]. apply fmem_In. now destruct trained0. }
-  unfold cfg_ok in Hok. rewrite !andb_true_iff in Hok. destruct Hok as [_ Hg].
+  unfold cfg_ok, cfg_ok_on in Hok. rewrite !andb_true_iff in Hok. destruct Hok as [_ Hg].
   rewrite forallb_forall in Hg. specialize (Hg _ Hin). now apply Bool.eqb_prop in Hg.
 Qed.
 
